@@ -31,6 +31,9 @@ type propEntry struct {
 
 var registry = map[string]*propEntry{}
 
+// Warmups is the number of throw-away runs at process start.
+var Warmups = 3
+
 // Register adds a property check to this worker binary.
 func Register[S any, PS interface {
 	*S
@@ -150,6 +153,21 @@ func WorkerMain(t *testing.T) {
 			w.Flush()
 			of.Close()
 			os.Exit(3)
+		}
+	}
+	// Warm-up: lazily initialised process-global state (sync.Once paths in the
+	// runtime, testing, grpc registries, codecs ...) adds scheduling points to
+	// whichever run happens to come first. A few throw-away runs of fixed
+	// scenarios make every reported run start from the same warmed state, so a
+	// seed behaves the same alone and inside a batch.
+	for i := 0; i < Warmups; i++ {
+		sc := pe.gen(Mix(0x77a2, uint64(i)), "quick")
+		raw, _ := json.Marshal(sc)
+		if dsc, err := pe.dec(raw); err == nil {
+			out := Run(t, *dsc.SchedP(), false, false, func(e *Env) { pe.run(e, dsc) })
+			if out.Deadlock || out.Panic != "" {
+				break // the real runs will report it
+			}
 		}
 	}
 	switch req.Mode {
